@@ -498,6 +498,44 @@ def rule_py_capacity(out):
 
 
 # ----------------------------------------------------------------------------------
+# PB2: bytes leave CodedOutputStream in the order they were written: a direct write to the
+# underlying stream is preceded by a flush of the staging buffer.
+# ----------------------------------------------------------------------------------
+
+def rule_py_write_order(out):
+    rid = "PB2"
+    out.rule(rid, "CodedOutputStream: every direct `self._stream.write(...)` (bypassing the staging buffer) is preceded on its path by `self.flush()`, "
+                  "so bytes buffered earlier (e.g. magic bytes and version before a large schema) are not overtaken", 2)
+    tree, rel = parse_py(out, "_binary.py")
+    cls = classes(tree).get("CodedOutputStream")
+    if cls is None:
+        out.undecided(rid, "CodedOutputStream", rel, "class not found")
+        return
+    for mname, fn in methods(cls).items():
+        if mname == "flush":
+            continue
+
+        def scan(stmts, flushed):
+            for st in stmts:
+                if isinstance(st, ast.Expr) and isinstance(st.value, ast.Call) and ast.unparse(st.value) == "self.flush()":
+                    flushed = True
+                    continue
+                if isinstance(st, ast.If):
+                    scan(st.body, flushed)
+                    scan(st.orelse, flushed)
+                    continue
+                if isinstance(st, (ast.For, ast.While, ast.With, ast.Try)):
+                    scan(st.body, flushed)
+                    continue
+                for n in ast.walk(st):
+                    if isinstance(n, ast.Call) and ast.unparse(n.func) == "self._stream.write":
+                        out.check(flushed, rid, "CodedOutputStream.%s/direct write" % mname, pos(rel, n), "staging buffer flushed first",
+                                  "writes directly to the underlying stream while earlier bytes may still sit in the staging buffer: they come out AFTER this data "
+                                  "(a schema larger than the buffer is written ahead of the magic bytes)")
+        scan(fn.body, False)
+
+
+# ----------------------------------------------------------------------------------
 # PH1: headers. Writer: magic, fixed int32 version, schema string, in that order.
 # Readers: magic / version / schema are compared with `!=` and a mismatch raises, before
 # anything else is read.
@@ -879,8 +917,8 @@ RULES = {
     "C15": [rule_py_headers],
     "C16": [rule_py_eof],
     "C17": [rule_py_stream_blocks],
-    "C04": [rule_py_headers],
-    "C01": [rule_py_wire_table, rule_py_stream_blocks],
+    "C04": [rule_py_headers, rule_py_write_order],
+    "C01": [rule_py_wire_table, rule_py_stream_blocks, rule_py_write_order],
 }
 
 
